@@ -28,7 +28,10 @@ def run(tier, seed):
                      'without detection) and the hook-iff / hook-args clauses; each detect_*_constraint method of the '
                      'pandas detector writes exactly one flag column, under the name of its constraint kind, holding the '
                      'record-level mask the property describes (every record for a type failure, null records for '
-                     'max_nulls, duplicated-group members for no_duplicates, nulls otherwise unflagged); counts, output '
-                     'frame/file and input-frame frame conditions are decided by the bounded layer only')
+                     'max_nulls, duplicated-group members for no_duplicates, nulls otherwise unflagged); write_detected_records '
+                     '(in-memory part, row-level frame stub): per-record failure counts, record counts, which records and '
+                     'columns the detection frame holds, input frame assigned to only in place; the output file part '
+                     '(index columns, type conversion, interleaving) and everything on real pandas values are decided by the '
+                     'bounded layer only')
     cm.bounded_constraints(ctx, props=('C06',))
     return finish(ctx, 'other', replayers=cm.REPLAYERS)
